@@ -1,4 +1,5 @@
 import Kvql.Proofs.ExecVecEqMap
+import Kvql.Proofs.ExecOffConst
 
 namespace Kvql
 open Generated
@@ -42,8 +43,11 @@ theorem rowwise_body (b : Body) (hb : b = .join ∨ b = .toList ∨ b = .intList
     VecBodyEqMap b args := by
   intro chunk c hc vs c' h
   rw [vec_rowwise b hb] at h
-  obtain ⟨e1, R⟩ := forPairs_forall₂ (fun kv => rowBody_inert b args kv) hc h
-  exact ⟨e1, R.imp (fun v kv hv => ⟨v, hv, .refl v⟩)⟩
+  unfold rowWiseNoCtx at h
+  rcases hf : forPairs (rowBody b args) chunk Ctx.none with ⟨r, d⟩
+  rw [hf] at h; simp at h; obtain ⟨rfl, rfl⟩ := h
+  obtain ⟨_, R⟩ := forPairs_forall₂ (fun kv => rowBody_inert b args kv) (c := Ctx.none) rfl hf
+  exact ⟨rfl, R.imp (fun v kv hv => ⟨v, (rowBody_off b args kv).run_eq rfl hc hv, .refl v⟩)⟩
 
 theorem len_body {a0 : Expr} {rest : List Expr} (ih : VecEqMap a0) : VecBodyEqMap .len (a0 :: rest) := by
   intro chunk c hc vs c' h
